@@ -30,6 +30,13 @@ Theorem C19_inv_initial :
 Proof. exact inv_initial. Qed.
 Print Assumptions C19_inv_initial.
 
+(* Identity of configurations after clone, for every parameter combination (deep_copy, allow_outer_scope_values):
+   the clone registers the very same configuration objects, so with C19_inv_reachable every reference of a cloned
+   node is to a configuration registered on the clone (Example: Proofs3.uns_clone). *)
+Theorem C19_clone_same_configurations : forall h deep allow, s_cfgs (fst (clone h deep allow)) = s_cfgs h.
+Proof. exact clone_same_cfgs. Qed.
+Print Assumptions C19_clone_same_configurations.
+
 (* The library's own check (_check_device_configurations as a Gallina function) reports nothing on a DevInv
    state whose sharded values have non-empty names (Example: Proofs3.ex_annotated / ex_after_edit). *)
 Theorem C19_check_empty : forall h, DevInv h -> names_nonempty h -> check h = [].
